@@ -71,6 +71,7 @@ class ULPIRegisterWindow(Elaboratable):
         self.ulpi_stop     = Signal()
 
         self.busy          = Signal()
+        self.read_data_phase = Signal()
         self.address       = Signal(6)
         self.done          = Signal()
 
@@ -102,6 +103,9 @@ class ULPIRegisterWindow(Elaboratable):
 
             # We're busy whenever we're not IDLE; indicate so.
             m.d.comb += self.busy.eq(~fsm.ongoing('IDLE'))
+
+            # Register read data is on the bus (and looks like an RxCmd) only in READ_COMPLETE.
+            m.d.comb += self.read_data_phase.eq(fsm.ongoing('READ_COMPLETE'))
 
             # IDLE: wait for a request to be made
             with m.State('IDLE'):
@@ -880,7 +884,7 @@ class UTMITranslator(Elaboratable):
 
             # Connect our data inputs to the event decoder.
             # Note that the event decoder is purely passive.
-            rxevent_decoder.register_operation_in_progress.eq(register_window.busy),
+            rxevent_decoder.register_operation_in_progress.eq(register_window.read_data_phase),
             self.last_rx_command          .eq(rxevent_decoder.last_rx_command),
 
             # Connect our inputs to our transmit translator.
